@@ -21,13 +21,14 @@ META = {
     "stubs": ["none for the geometry itself: RegionGeom.__init__ and throw run from /repo's source under the shim"],
     "assumptions": ["REAL mode with algebraised trigonometry", "generalisation cuts: every fresh symbol carries only facts that were proved about the real term in the init-lemma job"],
 }
-LEDGER = {"quick": 185, "thorough": 185}
+LEDGER = {"quick": 180, "thorough": 180}
 
 
 def _init(C, symbolic_det=False):
     ns = gm.load_geom()
     cfg, inp = gm.make_config(C, symbolic_det=symbolic_det)
     g = ns["RegionGeom"](cfg)
+    C._bracket_term = code_bracket(g)  # located now: later jobs replace Lmin / Lmax on the object by generalised symbols
     aH = 0.5 * ns["np"].pi - ns["np"].arccos(g.earth_radius / g.core_alt)
     C.assume((cfg.simulation.angle_from_limb < aH).term())
     # comparisons implied by 0 < limb < alphaHorizon, made through the shim so that the
@@ -42,10 +43,9 @@ def init_lemmas_run():
 
     def run(C):
         ns, cfg, inp, g, aH = _init(C)
-        with load.Tracer(watch=["__init__"]) as tr0:
-            g2 = ns["RegionGeom"](cfg)
-        br_code = SV.of(tr0.locals["__init__"]["bracketForNormThetaS"]).term()
+        ns["RegionGeom"](cfg)  # a second construction after the limb assumptions: its comparisons-through-the-shim register the monotonicity instances
         Lmin, Lmax = SV.of(g.minLOSpathLen).term(), SV.of(g.maxLOSpathLen).term()
+        br_code = code_bracket(g)
         r, R = SV.of(g.core_alt).term(), SV.of(g.earth_radius).term()
         R2 = SV.of(g.earth_rad_2).term()
         claims = {
@@ -84,9 +84,36 @@ def init_lemmas_run():
     return run
 
 
-def _skip_bracket(tag, where):
-    if tag == "div" and "bracketForNormThetaS" in harness.src_line(where):
-        return "bracket > 0 is proved in generalised form by the job 'normalisation bracket' (for every 0 < Lmin < Lmax)"
+def code_bracket(g):
+    """The normalisation bracket A Lmax - Lmax^3/3 - A Lmin + Lmin^3/3 AS COMPUTED BY __init__: located inside the
+    term of g.mcnorm as the outermost sub-term that is the same rational function of (Lmin, Lmax) -- not read from
+    a local variable, so renaming or extracting code in __init__ does not matter.  What is claimed about it is
+    proved by the solver afterwards."""
+    Lmin, Lmax = SV.of(g.minLOSpathLen).term(), SV.of(g.maxLOSpathLen).term()
+    a, b = z3.Real("__Lmin_probe"), z3.Real("__Lmax_probe")
+    root = z3.substitute(SV.of(g.mcnorm).term(), (Lmin, a), (Lmax, b))
+    r, R2 = SV.of(g.core_alt).term(), SV.of(g.earth_rad_2).term()
+    A = r * r - R2  # (the code writes core_alt^2 - earth_rad_2; that this equals Lmax^2 is a lemma of its own)
+    ref = A * b - core.rv(Fr(1, 3)) * b * b * b - A * a + core.rv(Fr(1, 3)) * a * a * a
+    hit = harness.find_subterm(root, ref)
+    if hit is None:
+        raise core.HarnessError("the normalisation bracket does not occur in mcnorm as a rational function of (Lmin, Lmax)")
+    return z3.substitute(hit, (a, Lmin), (b, Lmax))
+
+
+def _skip_bracket(tag, where, cond=None):
+    """the division by the normalisation bracket: its definedness is the subject of the job 'normalisation bracket'"""
+    if tag != "div" or cond is None:
+        return None
+    try:
+        ch = cond.children()
+        if cond.decl().kind() == z3.Z3_OP_DISTINCT or (cond.decl().kind() == z3.Z3_OP_NOT and ch[0].decl().kind() == z3.Z3_OP_EQ):
+            x = ch[0] if cond.decl().kind() == z3.Z3_OP_DISTINCT else ch[0].children()[0]
+            br = getattr(core.ctx(), "_bracket_term", None)
+            if br is not None and (x.eq(br) or harness.same_function(x, br)):
+                return "bracket > 0 is proved in generalised form by the job 'normalisation bracket' (for every 0 < Lmin < Lmax)"
+    except Exception:  # noqa
+        return None
     return None
 
 
@@ -125,38 +152,43 @@ def cubic_run():
         U, us = gm.make_u(C)
         with load.Tracer(watch=["throw"]) as tr:
             g.throw(U)
-        loc = tr.locals["throw"]
+        loc = tr.locals.get("throw", {})
         L = SV.of(g.losPathLen[0]).term()
         Lmin, Lmax = inp["Lmin"], inp["Lmax"]
         u4 = us[3][0]
         A = Lmax * Lmax
-        sel = {k: bool(core._b(SV.of(loc["dmsk"][0])) & core._b(SV.of(loc[f"v{k}_msk"][0]))) for k in (1, 2, 3)}
-        cardano = not bool(core._b(SV.of(loc["dmsk"][0])))
-        v = {k: SV.of(loc[f"v{k}"][0]).term() for k in (1, 2, 3)}
         claims = {
-            "discriminant <= 0: the trigonometric branch is always taken (no Cardano branch)": z3.BoolVal(not cardano),
             "Lmin <= L <= Lmax": z3.And(L >= Lmin, L <= Lmax),
             "L is the inverse-CDF image of u4: 3A(Lmax-L) - (Lmax^3-L^3) == u4 * (3A(Lmax-Lmin) - (Lmax^3-Lmin^3)), A = r_d^2-R^2": 3 * A * (Lmax - L) - (Lmax * Lmax * Lmax - L * L * L)
             == u4 * (3 * A * (Lmax - Lmin) - (Lmax * Lmax * Lmax - Lmin * Lmin * Lmin)),
-            "some root is selected": z3.BoolVal(any(sel.values())),
-            "the roots selected all equal L (exactly one unless roots coincide)": z3.And(*[v[k] == L for k in (1, 2, 3) if sel[k]]) if any(sel.values()) else z3.BoolVal(False),
             "L != 0 (division in cos(theta_NV) defined)": L != 0,
         }
+        sel, cardano = None, None
+        # claims about the implementation's internals: stated only while it keeps these local names (auxiliary:
+        # they must be decided when present, but a refactoring that renames the locals does not break the check)
+        if all(k in loc for k in ("dmsk", "v1", "v2", "v3", "v1_msk", "v2_msk", "v3_msk")):
+            sel = {k: bool(core._b(SV.of(loc["dmsk"][0])) & core._b(SV.of(loc[f"v{k}_msk"][0]))) for k in (1, 2, 3)}
+            cardano = not bool(core._b(SV.of(loc["dmsk"][0])))
+            v = {k: SV.of(loc[f"v{k}"][0]).term() for k in (1, 2, 3)}
+            claims["(internal) discriminant <= 0: the trigonometric branch is always taken (no Cardano branch)"] = z3.BoolVal(not cardano)
+            claims["(internal) some root is selected"] = z3.BoolVal(any(sel.values()))
+            claims["(internal) the roots selected all equal L (exactly one unless roots coincide)"] = z3.And(*[v[k] == L for k in (1, 2, 3) if sel[k]]) if any(sel.values()) else z3.BoolVal(False)
+        f_sl, _cut = gm.throw_slices(ns)
+        last_omitted = max(b for _a, b in f_sl.omitted_lines)
+
+        def skip(t, w, cond=None):
+            try:
+                ln = int(w.rsplit(":", 1)[1])
+            except Exception:
+                ln = 0
+            if ln > last_omitted and "region_geometry" in w:
+                return "belongs to the spot / angle obligations (separate job)"
+            return _skip_bracket(t, w, cond)
+
         # the bracket computed by the real __init__ (before generalisation) equals the generalised expression
-        return harness.Out(claims=claims, inputs=dict(inp, **{f"u{k+1}": us[k][0] for k in range(4)}), info={"selected": sel, "cardano": cardano},
-                           skip_defd=lambda t, w: _skip_after_cubic(t, w) or _skip_bracket(t, w))
+        return harness.Out(claims=claims, inputs=dict(inp, **{f"u{k+1}": us[k][0] for k in range(4)}), info={"selected": sel, "cardano": cardano}, skip_defd=skip)
 
     return run
-
-
-def _skip_after_cubic(tag, where):
-    try:
-        ln = int(where.rsplit(":", 1)[1])
-    except Exception:
-        return None
-    if ln > 158:
-        return "belongs to the spot / angle obligations (separate job)"
-    return None
 
 
 def _sliced(C, symbolic_det=True):
@@ -183,8 +215,14 @@ def spot_run():
         L, r, R = inp["L"], SV.of(g.core_alt).term(), SV.of(g.earth_radius).term()
         thS = SV.of(g.thetaS[0])
         sT, cT = core.sincos(thS)
-        rx, ry, rs = (SV.of(loc[k][0]).term() for k in ("rxS", "ryS", "rsinlatS"))
-        latr, lonr = SV.of(loc["latS_rad"][0]), SV.of(loc["longS_rad"][0])
+        # intermediate quantities are recovered from the PUBLIC results (latS, longS in degrees), not from local
+        # variables: latitude = arcsin(z-component), longitude = arctan2(y, x) of the spot direction
+        latr, lonr = core.sv_radians(g.latS[0]), core.sv_radians(g.longS[0])
+        yx = core.atan2_args(lonr)
+        if yx is None:
+            raise core.HarnessError("longS is not the arctan2 of two components")
+        ry, rx = yx
+        rs = core.sincos(latr)[0]
         slat, clat = core.sincos(latr)
         slon, clon = core.sincos(lonr)
         D = _vec(core.sincos(g.detLat), core.sincos(g.detLong))
@@ -225,9 +263,9 @@ def spot_run():
     return run
 
 
-def _skip_origin(tag, where):
-    if _skip_bracket(tag, where):
-        return _skip_bracket(tag, where)
+def _skip_origin(tag, where, cond=None):
+    if _skip_bracket(tag, where, cond):
+        return _skip_bracket(tag, where, cond)
     if tag == "atan2-origin":
         return "np.arctan2(0, 0) is defined (0) in NumPy; the pole case is excluded from the direction claims explicitly"
     return None
@@ -238,7 +276,7 @@ def beta_run():
         ns, cfg, inp, g, us, loc, cut = _sliced(C, symbolic_det=False)
         L, r, R = inp["L"], SV.of(g.core_alt).term(), SV.of(g.earth_radius).term()
         cNV = SV.of(g.costhetaNSubV[0]).term()
-        thNV = SV.of(loc["thetaNSubV"][0])
+        thNV = core.sv_arccos(g.costhetaNSubV[0])  # the angle whose cosine the code stores (same cached primitive as the code's own arccos)
         sNV, cNV2 = core.sincos(thNV)
         sV, cV = core.sincos(SV.of(g.thetaTrSubV[0]))
         sP, cP = core.sincos(SV.of(g.phiTrSubV[0]))
@@ -251,7 +289,7 @@ def beta_run():
         e1 = (cNV2, z3.RealVal(0), -sNV)
         e2 = (z3.RealVal(0), z3.RealVal(1), z3.RealVal(0))
         t = tuple(cV * v[k] + sV * (cP * e1[k] + sP * e2[k]) for k in range(3))
-        cT_S = SV.of(loc["costhetaS"][0]).term()
+        cT_S = core.sincos(SV.of(g.thetaS[0]))[1]  # thetaS = arccos(cos theta_S): the primitive keeps the argument term
         claims = {
             "cos(theta_NV) is the angle between the local vertical and the line of sight: R L cos(theta_NV) == r R cos(theta_S) - R^2": R * L * cNV == r * R * cT_S - R * R,
             "the trajectory vector built from (theta_TrV, phi_TrV) about the line of sight is a unit vector": t[0] * t[0] + t[1] * t[1] + t[2] * t[2] == 1,
@@ -342,8 +380,18 @@ def along_run(s_zero, pinned=False):
             C.assume(s > 0)
         with load.Tracer(watch=["find_lat_long_along_traj"]) as tr:
             latP, lonP = g.find_lat_long_along_traj(SymArray([sv]))
-        loc = tr.locals["find_lat_long_along_traj"]
-        d2 = SV.of(loc["dist2EarthCenter"][0]).term()
+        loc = tr.locals.get("find_lat_long_along_traj", {})
+        if "dist2EarthCenter" in loc:
+            d2 = SV.of(loc["dist2EarthCenter"][0]).term()
+        else:
+            # the implementation no longer has a local of that name: the distance from the Earth's centre is DEFINED from
+            # the returned angles (longitude = arctan2(y, x), sin(latitude) = z / d): d > 0, d^2 cos^2(lat) = x^2 + y^2
+            yx = core.atan2_args(SV.of(lonP[0]))
+            if yx is None:
+                raise core.HarnessError("the returned longitude is not the arctan2 of two components")
+            sl_ = core.sincos(SV.of(latP[0]))[0]
+            d2 = z3.Real("dist_from_centre")
+            C.assume(d2 > 0, d2 * d2 * (1 - sl_ * sl_) == yx[0] * yx[0] + yx[1] * yx[1])
         # emergence angle of this trajectory as throw defines it
         (sV, cV), (sP, cP), (sN, cN) = core.sincos(th), core.sincos(ph), core.sincos(thNV)
         sinbeta = cV * cN - sV * sN * cP  # == cos(theta_TrN)
@@ -546,12 +594,15 @@ def rethrow_run():
                 claims[f"throw {rnd} on the same object: {name}() returns THIS throw's values"] = got.term() == want.term()
         inputs = dict(inp)
 
-        def skip(tag, where):
+        first_line = f.fn_lines[0]
+
+        def skip(tag, where, cond=None):
             try:
                 ln = int(where.rsplit(":", 1)[1])
             except Exception:
                 ln = 0
-            return _skip_origin(tag, where) or ("definedness of throw / find_lat_long_along_traj is established by the spot, angle and s = 0 jobs" if ln > 100 else None)
+            return _skip_origin(tag, where, cond) or ("definedness of throw / find_lat_long_along_traj is established by the spot, angle and s = 0 jobs"
+                                                      if (ln >= first_line and "region_geometry" in where) else None)
 
         return harness.Out(claims=claims, inputs=inputs, skip_defd=skip)
 
